@@ -307,6 +307,9 @@ def run(chk, prop=PID):
     # a slice without the known classes, so that the unguarded clauses are exercised on clean inputs as well
     cases += [G.make_case(rng, big=False, branch_only=False, root_files=False, abs_paths=False) for _ in range(40 if quick else 400)]
     cases += tiny_universe(rng, not quick)
+    # every seventh result set is written to output paths that already hold an older, longer report
+    for c in cases[3::7]:
+        c["stale_output"] = True
     impl, decs, stats = G.run_cases(chk, cases, prop, "gen")
     agree, bad = G.correspondence(chk, cases, decs, "gen", limit=None if not quick else 200)
     selftest(chk)
